@@ -106,6 +106,7 @@ type Result struct {
 	Steps    int64         `json:"-"`
 
 	raw     any
+	data    any // what was handed to Parse as data (a Go value or a front end's factory)
 	destPtr reflect.Value
 }
 
@@ -423,6 +424,9 @@ func (x *X) Exec(tag string, op *Op) *Result {
 	cleanup := func() {}
 	if op.Kind == "validate" {
 		populate(dest.Elem(), op.Input)
+		if x.destHook != nil {
+			x.destHook(dest, nil)
+		}
 	} else {
 		if op.Pre != nil {
 			populate(dest.Elem(), *op.Pre)
@@ -431,6 +435,7 @@ func (x *X) Exec(tag string, op *Op) *Result {
 		if x.destHook != nil {
 			x.destHook(dest, data)
 		}
+		res.data = data
 	}
 	defer cleanup()
 	rec.Root = dest
